@@ -26,6 +26,8 @@ BREAKS = [
     ('eval_op_rshift: count masked to 5 bits', 'miasmx/expression/expression_eval_abstract.py', '        ret_value = ((args[0]&mymaxuint[op_size])>>r)\n        return ret_value', '        ret_value = ((args[0]&mymaxuint[op_size])>>(r&0x1F))\n        return ret_value', 'checks.C06smt', 'eval_op_rshift['),
     ('eval_op_lshift: operand not reduced, count masked', 'miasmx/expression/expression_eval_abstract.py', '        r = args[1]#&0x1F\n        if int(r) >= op_size:', '        r = args[1]&0x1F\n        if int(r) >= op_size:', 'checks.C06smt', 'eval_op_lshift['),
     ('eval_op_arshift: sign bit never taken', 'miasmx/expression/expression_eval_abstract.py', '        if v >> (op_size-1):\n            v -= 1 << op_size\n        ret_value = v >> int(r)', '        if v >> op_size:\n            v -= 1 << op_size\n        ret_value = v >> int(r)', 'checks.C06smt', 'eval_op_arshift['),
+    ('eval_op_rotl: low half shifted one position short', 'miasmx/expression/expression_eval_abstract.py', '((args[0] & mymaxuint[op_size]) >> (op_size-r))\n', '((args[0] & mymaxuint[op_size]) >> (op_size-r-1))\n', 'checks.C06smt', 'eval_op_rotl['),
+    ('eval_op_rotr: high half shifted one position too far', 'miasmx/expression/expression_eval_abstract.py', '((args[0] << (op_size-r)) & mymaxuint[op_size])\n', '((args[0] << (op_size-r+1)) & mymaxuint[op_size])\n', 'checks.C06smt', 'eval_op_rotr['),
     ('eval_op_inf: <= instead of <', 'miasmx/expression/expression_eval_abstract.py', '        ret_value =  [0, 1][int(args[0] < args[1])]', '        ret_value =  [0, 1][int(args[0] <= args[1])]', 'checks.C06smt', 'eval_op_inf['),
     ('ExprMem.__eq__ ignores the segment', 'miasmx/expression/expression.py', 'return self.arg == a.arg and self.size == a.size and self.segm == a.segm', 'return self.arg == a.arg and self.size == a.size', 'checks.C15smt', 'ind:ExprMem.__eq__['),
     ('ExprMem.visit forgets the segment child', 'miasmx/expression/expression.py', '            segm = self.segm.visit(cb)\n', '            segm = self.segm\n', 'checks.C15smt', 'ind:ExprMem.visit['),
